@@ -71,6 +71,9 @@ def main():
                 print(row)
                 continue
             checks = mu["props"] if not (benign or all_checks) else ["C%02d" % i for i in range(1, 21)]
+            if os.environ.get("MUT_CHECKS"):
+                # development: a subset of the checks
+                checks = os.environ["MUT_CHECKS"].split(",")
             row["checks"] = {}
             for pid in checks:
                 c0 = time.time()
@@ -90,8 +93,8 @@ def main():
         results.append(row)
         print(json.dumps(row), flush=True)
     assert clean()
-    out = os.path.join(VERIF, "tools", "mutation_results_%s.json" % ("benign" if benign else "mutants"))
-    if not only:
+    out = os.environ.get("MUT_OUT") or os.path.join(VERIF, "tools", "mutation_results_%s.json" % ("benign" if benign else "mutants"))
+    if not only or os.environ.get("MUT_OUT"):
         json.dump(results, open(out, "w"), indent=1)
     print("---- summary")
     for r in results:
